@@ -11,6 +11,7 @@ import Ztr.Model.Threads
 import Ztr.Model.Bracket
 import Ztr.Model.Sched
 import Ztr.Model.Xml
+import Ztr.Model.Discovery
 /-!
 Line protocol between the Python harness and the executable model: one JSON object per line in,
 one JSON object per line out.  `op` selects the model component.  Unknown or malformed requests are
@@ -426,6 +427,34 @@ def opXml (j : Json) : Except String Json := do
   return Json.mkObj [("files", Json.arr (suites.map (fun s =>
     Json.arr #[jNats s.name, jNats (Ztr.Xml.renderSuite s host stime stamp)])).toArray)]
 
+/-- `discovery`: find_test_files + the import gate.  Predicates are given as the lists of names
+for which they hold. -/
+def opDiscovery (j : Json) : Except String Json := do
+  let roots ← (← J.arr! j "roots").toList.mapM (fun (x : Json) => do
+    let path ← J.natss! x "path"
+    let t ← treeOf (← x.getObjVal? "tree")
+    return (path, t))
+  let ident ← J.natss! j "identifier"
+  let tp ← J.natss! j "testsPat"
+  let tfp ← J.natss! j "testFilePat"
+  let ign ← J.natss! j "ignoreDir"
+  let igf ← J.natss! j "ignoreFolders"
+  let usec ← J.bool! j "usecompiled"
+  let accepted ← (← J.arr! j "acceptedModules").toList.mapM (fun (x : Json) => do
+    (← x.getArr?).toList.mapM (fun (y : Json) => do (← y.getArr?).toList.mapM (fun z => z.getNat?)))
+  let fIdent : List Nat → Bool := fun n => ident.contains n
+  let fTp : List Nat → Bool := fun n => tp.contains n
+  let fTfp : List Nat → Bool := fun n => tfp.contains n
+  let fIgn : List Nat → Bool := fun n => ign.contains n
+  let fIgf : List Nat → Bool := fun n => igf.contains n
+  let e : Ztr.Discovery.Env := { identifier := fIdent, testsPat := fTp, testFilePat := fTfp, ignoreDir := fIgn, ignoreFolders := fIgf, usecompiled := usec }
+  let files := Ztr.Discovery.findTestFiles e roots
+  let mods := Ztr.Discovery.importedModules e (fun m => accepted.contains m) roots
+  let allMods := files.map (fun p => Ztr.Discovery.moduleName e (roots.map (·.1)) p)
+  return Json.mkObj [("files", Json.arr (files.map jNatss).toArray),
+    ("imported", Json.arr (mods.map jNatss).toArray),
+    ("modules", Json.arr (allMods.map (fun m => match m with | some x => jNatss x | none => Json.null)).toArray)]
+
 def dispatch (j : Json) : Except String Json := do
   let op ← J.str! j "op"
   match op with
@@ -438,6 +467,7 @@ def dispatch (j : Json) : Except String Json := do
   | "bracket" => opBracket j
   | "sched" => opSched j
   | "xml" => opXml j
+  | "discovery" => opDiscovery j
   | "world" => opWorld j
   | "proto" => opProto j
   | "suites" => opSuites j
